@@ -91,6 +91,7 @@ class SolverWrapper:
     threads = 4
     time_limit = float('inf')
     presolve = "choose"
+    _highs_scheduler_threads = None
     log_to_console = "false"
     external_solver = "highs"
     tolerance = 1e-9
@@ -515,6 +516,14 @@ class SolverWrapper:
         # Otherwise, we call the function with a timeout
         # Apply any queued bound updates right before solving
         self._apply_pending_bound_updates()
+
+        if self.external_solver == "highs":
+            # HiGHS keeps one global task scheduler per process, initialised with the thread count of the first model
+            # that runs; a later model asking for another count would fail to run (status kNotset). Reset it in that case.
+            status, threads = self.solver.getOptionValue("threads")
+            if SolverWrapper._highs_scheduler_threads not in (None, threads):
+                highspy.Highs.resetGlobalScheduler(True)
+            SolverWrapper._highs_scheduler_threads = threads
 
         if self.time_limit == float('inf') or (not self.use_also_custom_timeout):
             self.solver.optimize()
